@@ -167,6 +167,29 @@ let run mode line =
           end else store id;
           Hashtbl.replace stack id ();
           roots ()
+        | 'B' ->
+          (* B<c>,<m>,<n>,<first>: n fresh probe structs allocated while container c is being built; each
+             allocation is a collection point at which c holds the elements inserted so far *)
+          (match String.split_on_char ',' rest with
+           | [c; m; n; first] ->
+             let c = int_of_string c and n = int_of_string n and first = int_of_string first in
+             let cn = Hashtbl.find nodes c in
+             if m = "a" then begin cn.items <- []; store c end;
+             for i = 0 to n - 1 do
+               let id = first + i in
+               let nd = { k = 'S'; root = false; f = [|0; 0|]; items = []; kv = [] } in
+               Hashtbl.replace nodes id nd;
+               if spec then begin
+                 sheap := gm_nset (addr id) (contents nd) !sheap;
+                 sreg := gm_nset (addr id) false !sreg;
+                 sorder := addr id :: !sorder
+               end else (flush_roots (); do_step (EAlloc (addr id, contents nd, false)));
+               (match cn.k with
+                | 'T' | 'E' | 'Y' | 'Z' -> cn.kv <- (id, id) :: List.remove_assoc id cn.kv
+                | _ -> cn.items <- cn.items @ [id]);
+               store c
+             done
+           | _ -> failwith "B")
         | 'Q' ->
           (* Q<fid>=<lid><K>,<place> *)
           let eq = String.index rest '=' and comma = String.index rest ',' in
